@@ -255,7 +255,7 @@ def concrete_hash(params, model):
 # ---------------------------------------------------------------------------------------------
 # (b) MockProvider vs reference tree
 # ---------------------------------------------------------------------------------------------
-NAMES_CS = ["/a", "/A", "/d", "/d/a", "/d/é.x", "/b"]
+NAMES_CS = ["/a", "/A", "/d", "/d/a", "/d/é.x", "/d.b"]      # /d.b: a sibling whose name merely starts with the folder name /d
 CALLS = ["create", "mkdir", "upload", "rename", "delete", "info", "listdir", "exists", "download"]
 
 
@@ -578,9 +578,9 @@ def jobs(tier):
         for cs in (True, False):
             out.append({"harness": "mock", "params": {"oid_is_path": oip, "case_sensitive": cs, "K": 2 if q else 3},
                         "label": "mock/%s/%s/%d-calls" % ("path-ids" if oip else "object-ids", "cs" if cs else "ci", 2 if q else 3)})
-            out.append({"harness": "mock", "params": {"oid_is_path": oip, "case_sensitive": cs, "K": 3 if q else 4, "names": ["/a", "/A", "/d"],
+            out.append({"harness": "mock", "params": {"oid_is_path": oip, "case_sensitive": cs, "K": 3 if q else 4, "names": ["/a", "/d", "/d.b"] if cs else ["/a", "/A", "/d"],
                                                       "calls": ["create", "mkdir", "upload", "rename", "delete"]},
-                        "label": "mock/%s/%s/%d-mutations-on-a,A,d" % ("path-ids" if oip else "object-ids", "cs" if cs else "ci", 3 if q else 4)})
+                        "label": "mock/%s/%s/%d-mutations-on-3-names" % ("path-ids" if oip else "object-ids", "cs" if cs else "ci", 3 if q else 4)})
     return out
 
 
